@@ -207,11 +207,18 @@ def histories(case, tier="quick"):
     cfg = plain["cfg"]
     faster = dict(plain, cfg=dict(cfg, machines=[[c + 1, b + 1] for c, b in
                                                  cfg["machines"]]))
-    hs = [("after-a-run-on-other-machine-speeds", [faster]),
-          ("after-an-abandoned-run", [dict(plain, runtime=2)])]
+    hs = [("after-a-run-on-other-machine-speeds", [faster], {}),
+          ("after-an-abandoned-run", [dict(plain, runtime=2)], {})]
+    # the same file names with other content earlier in the process: every
+    # workflow gets one more unit of compute per node in the earlier run
+    edited = dict(plain, fixed_paths=True, wfs={
+        k: dict(w, nodes=[[n[0], n[1] + 1] + list(n[2:]) for n in w["nodes"]])
+        for k, w in plain["wfs"].items()})
+    hs.append(("after-a-run-of-edited-workflow-files-under-the-same-names",
+               [edited], {"fixed_paths": True}))
     if tier == "thorough":
         hs.append(("after-two-abandoned-runs",
-                   [dict(plain, runtime=1), dict(faster, runtime=3)]))
+                   [dict(plain, runtime=1), dict(faster, runtime=3)], {}))
     return hs
 
 
@@ -281,8 +288,8 @@ def run(rep, tier, seed):
             vs.append(("C10.same-across-hash-orders",
                        "tables-depend-on-set-order:%s" % case["alg"]["kind"],
                        {"keys": [k for k in f1 if f1.get(k) != f3.get(k)]}))
-        for label, before in histories(case, tier):
-            f4 = full_out(dict(case, before=before), ident)
+        for label, before, extra in histories(case, tier):
+            f4 = full_out(dict(case, before=before, **extra), ident)
             nruns += 1 + len(before)
             if f4 != f1:
                 vs.append(("C10.same-in-one-process",
@@ -460,8 +467,8 @@ def replay(payload):
         vs.append(("C10.same-across-hash-orders",
                    "tables-depend-on-set-order:%s" % case["alg"]["kind"],
                    None))
-    for label, before in histories(case, "thorough"):
-        if full_out(dict(case, before=before), ident) != f1:
+    for label, before, extra in histories(case, "thorough"):
+        if full_out(dict(case, before=before, **extra), ident) != f1:
             vs.append(("C10.same-in-one-process",
                        "run-differs-%s:%s" % (label, case["alg"]["kind"]),
                        None))
